@@ -107,6 +107,10 @@ def parse_module(text):
     for ln in lines:
         m = re.match(r'(%"[^"]+"|%[-\w.$]+) = type (.*)$', ln)
         if m: TYPEDEFS[m.group(1)] = m.group(2).strip()
+    aliases = {}
+    for ln in lines:
+        m = re.match(r'@("[^"]+"|[-\w.$]+) = .*\balias\b.*@("[^"]+"|[-\w.$]+)\s*$', ln)
+        if m: aliases[m.group(1).strip('"')] = m.group(2).strip('"')
     while i < len(lines):
         ln = lines[i]
         if ln.startswith('@'):
@@ -155,6 +159,8 @@ def parse_module(text):
                 i += 1
             funcs[name] = f
         i += 1
+    for a, b in aliases.items():
+        if b in funcs and a not in funcs: funcs[a] = funcs[b]
     return funcs, declares, globs
 
 def parse_type_prefix(s):
@@ -284,10 +290,10 @@ class Mem:
 
 class State:
     def __init__(self):
-        self.mem = Mem(); self.pc = []; self.frames = []; self.conc = {}; self.bools = {}; self.trace = []
+        self.mem = Mem(); self.pc = []; self.frames = []; self.conc = {}; self.bools = {}; self.trace = []; self.model = None
     def clone(self):
         s = State(); s.mem = self.mem.clone(); s.pc = list(self.pc); s.conc = dict(self.conc); s.bools = dict(self.bools)
-        s.trace = list(self.trace)
+        s.trace = list(self.trace); s.model = self.model
         s.frames = [dict(fn=f['fn'], env=dict(f['env']), block=f['block'], prev=f['prev'], idx=f['idx'], dest=f['dest']) for f in self.frames]
         return s
 
@@ -431,14 +437,31 @@ class Executor:
                 self.stats['paths'] += 1
                 self.outcomes.append((s.pc, o.kind, o.info, s.trace))
 
-    def feasible(self, pc):
+    def feasible(self, pc, st=None, extra=None):
+        """is pc (+ extra) satisfiable?  `st.model` (a model of st.pc) is tried first: if it already satisfies
+        `extra`, no solver call is needed (counterexample cache); on a solver `sat` the new model is remembered
+        in self.last_model so that the caller can attach it to the child state."""
         if self.concrete:
             return True
+        self.last_model = None
+        if st is not None and extra is not None and st.model is not None:
+            try:
+                v = st.model.eval(extra, model_completion=True)
+                if z3.is_true(v):
+                    self.stats['model_hits'] = self.stats.get('model_hits', 0) + 1
+                    self.last_model = st.model
+                    return True
+            except Exception:
+                pass
         self.stats['feas_checks'] += 1
         s = z3.Solver(); s.set('timeout', self.feas_timeout_ms)
         s.add(*pc)
+        if extra is not None: s.add(extra)
         r = s.check()
         if r == z3.unsat: self.stats['pruned'] += 1
+        if r == z3.sat:
+            try: self.last_model = s.model()
+            except Exception: self.last_model = None
         return r != z3.unsat
 
     def step_path(self, st, visits, work):
@@ -451,27 +474,30 @@ class Executor:
                 r = self.exec_ins(st, fr, ins)
             except Concretize as c:
                 fr['idx'] -= 1
-                live = [k for k in c.cands if self.feasible(st.pc + [c.term == bv(k, 64)])]
+                live = []
+                for k in c.cands:
+                    if self.feasible(st.pc, st, c.term == bv(k, 64)): live.append((k, self.last_model))
                 oobc = z3.And([c.term != bv(k, 64) for k in c.cands]) if c.cands else z3.BoolVal(True)
-                if self.feasible(st.pc + [oobc]):
+                if self.feasible(st.pc, st, oobc):
                     s3 = st.clone(); s3.pc.append(oobc)
                     self.stats['paths'] += 1; self.outcomes.append((s3.pc, 'ub', 'oob/unaligned symbolic access', s3.trace))
                 if not live: raise Outcome('infeasible')
-                for k in live[1:]:
-                    s2 = st.clone(); s2.pc.append(c.term == bv(k, 64)); s2.conc[c.term.sexpr()] = k
+                for k, mdl in live[1:]:
+                    s2 = st.clone(); s2.pc.append(c.term == bv(k, 64)); s2.conc[c.term.sexpr()] = k; s2.model = mdl
                     work.append((s2, dict(visits)))
-                st.pc.append(c.term == bv(live[0], 64)); st.conc[c.term.sexpr()] = live[0]
+                st.pc.append(c.term == bv(live[0][0], 64)); st.conc[c.term.sexpr()] = live[0][0]; st.model = live[0][1]
                 continue
             except ForkBool as fb:
                 fr['idx'] -= 1
                 key = fb.cond.sexpr()
-                t_ok = self.feasible(st.pc + [fb.cond]); f_ok = self.feasible(st.pc + [z3.Not(fb.cond)])
+                t_ok = self.feasible(st.pc, st, fb.cond); t_m = self.last_model
+                f_ok = self.feasible(st.pc, st, z3.Not(fb.cond)); f_m = self.last_model
                 if not t_ok and not f_ok: raise Outcome('infeasible')
                 if t_ok and f_ok:
                     self.stats['forks'] += 1
-                    s2 = st.clone(); s2.pc.append(z3.Not(fb.cond)); s2.bools[key] = False
+                    s2 = st.clone(); s2.pc.append(z3.Not(fb.cond)); s2.bools[key] = False; s2.model = f_m
                     work.append((s2, dict(visits)))
-                    st.pc.append(fb.cond); st.bools[key] = True
+                    st.pc.append(fb.cond); st.bools[key] = True; st.model = t_m
                 else:
                     st.bools[key] = t_ok   # implied by the path condition; no new conjunct needed
                 continue
@@ -489,18 +515,24 @@ class Executor:
                     live.append((c, lab))
                 if len(live) > 1:
                     self.stats['forks'] += 1
-                    live = [(c, l) for c, l in live if self.feasible(st.pc + [c])]
+                    live2 = []
+                    for c, l in live:
+                        if self.feasible(st.pc, st, c): live2.append((c, l, self.last_model))
+                    live = live2
+                else:
+                    live = [(c, l, st.model) for c, l in live]
                 if not live: raise Outcome('infeasible')
-                for c, lab in live[1:]:
-                    s2 = st.clone(); v2 = dict(visits)
+                for c, lab, mdl in live[1:]:
+                    s2 = st.clone(); v2 = dict(visits); s2.model = mdl
                     if not z3.is_true(c): s2.pc.append(c)
                     try:
                         self.enter(s2, s2.frames[-1], lab, v2)
                         work.append((s2, v2))
                     except Outcome as o:
                         self.stats['paths'] += 1; self.outcomes.append((s2.pc, o.kind, o.info, s2.trace))
-                c, lab = live[0]
+                c, lab, mdl = live[0]
                 if not z3.is_true(c): st.pc.append(c)
+                st.model = mdl
                 self.enter(st, fr, lab, visits)
             elif kind == 'ret':
                 v = r[1]
